@@ -1,6 +1,7 @@
 import Femio.Driver.Proto
 import Femio.Model.FistrMsh
 import Femio.Model.FistrCanon
+import Femio.Model.FistrSections
 /-! driver commands for C01 (FrontISTR `.msh`)
 
 ```
@@ -8,6 +9,9 @@ c01.write <mshin>            -> ok 1 <list line> | ok 0          (0: the model s
 c01.read <bang> <merge> <list line> -> ok 1 <mshread> | ok 0   (0: raises / outside the model; flags = ReadCfg)
 c01.canon <mshin>            -> ok <wf> <mshread>   (wf = decide (Femio.C01.WF m), mshread = Femio.C01.canon m: hypothesis
                                 and right-hand side of theorem C01_roundtrip)
+c01.secmat list(bool str str) list(str sci sci) -> ok <list line>   (section + material lines of several sections)
+c01.assign <bang> <merge> <list line> -> ok 1 list(id list(dec)) | ok 0   (Femio.Fistr.assignOfRead of the text read by the
+                                model reader: the reader's resolution of materials onto elements; 0: raises)
 mshin  := list(node) list(block) bool list(group) opt(sec) opt(list(id sci))
 node   := id list(sci)           sci := bool nat int             block := ty list(id list(nat))
 group  := str list(nat)          sec := bool str str sci sci
@@ -61,6 +65,17 @@ def handle : List String → Option String
     let (bang, merge, ls) ← run (do let b ← bool; let m ← bool; let l ← listOf str; pure (b, m, l)) rest
     match readMshCfg ⟨bang, merge⟩ ls with
     | some r => some ("ok 1 " ++ showRead r)
+    | none => some "ok 0"
+  | "c01.secmat" :: rest => do
+    let (secs, mats) ← run (do
+      let s ← listOf (do let sh ← bool; let g ← str; let m ← str; pure (sh, g, m))
+      let m ← listOf (do let n ← str; let y ← sciP; let p ← sciP; pure (n, y, p))
+      pure (s, m)) rest
+    some ("ok " ++ showLines (secMatLines secs mats))
+  | "c01.assign" :: rest => do
+    let (bang, merge, ls) ← run (do let b ← bool; let m ← bool; let l ← listOf str; pure (b, m, l)) rest
+    match (readMshCfg ⟨bang, merge⟩ ls).bind assignOfRead with
+    | some r => some ("ok 1 " ++ showList showRowD r)
     | none => some "ok 0"
   | _ => none
 
